@@ -6,6 +6,17 @@
 #include <sys/mman.h>
 
 #include <cinttypes>
+#include <string>
+#include <vector>
+// PROGRAM PHASE: a global defined ABOVE every library include. Dynamic initialisation of one translation unit runs in
+// definition order, so its constructor (body further down) calls the integer printers and Dump() before any dynamic
+// initialiser that the library's headers might contribute to this translation unit has run.
+struct EarlyCalls {
+  std::vector<std::string> u64, i64, dump;
+  EarlyCalls();
+};
+static EarlyCalls g_early;
+
 #include <memory>
 #include <utility>
 
@@ -43,6 +54,26 @@ struct Guarded {
   uint8_t* lo() { return base + PG; }
   uint8_t* hi() { return base + PG + np * PG; }  // first unmapped byte
 };
+
+static const uint64_t kEarlyVals[] = {0ull, 7ull, 99999999ull, 100000000ull, 123456789ull, 9999999999999999ull, 10000000000000000ull, 1234567890123456789ull, 18446744073709551615ull, 9223372036854775808ull,
+                                     1234567890123ull, 4294967296ull, 100000000000ull};
+EarlyCalls::EarlyCalls() {
+  for (uint64_t v : kEarlyVals) {
+    char b[64];
+    char* e = internal::U64toa(b, v);
+    u64.emplace_back(b, e);
+    int64_t sv = (int64_t)(0 - v);
+    e = internal::I64toa(b, sv);
+    i64.emplace_back(b, e);
+    Document d;
+    d.SetArray();
+    d.PushBack(Node(v), d.GetAllocator());
+    d.PushBack(Node(sv), d.GetAllocator());
+    d.PushBack(Node("s\n"), d.GetAllocator());
+    d.PushBack(Node(1.5), d.GetAllocator());
+    dump.push_back(d.Dump());
+  }
+}
 
 // ------------------------------------------------------------------ C08
 static const std::vector<uint64_t>& boundary_vals() {
@@ -378,9 +409,30 @@ int main(int argc, char** argv) {
     f8.chunk = 1 << 12;
     f8.group = "I8";
     f8.rule = "all values q*M + r with M in {10^4, 10^8}, q = k*2^16 + d or k*2^32 + d (|d| <= 2; k = 1..70000, 2^j-1..2^j+1 and the last three that fit; for 2^32 x 10^8 that is every k), r from 24 boundary remainders: as uint64, as int64 bits and negated";
-    fams = {f1, f2, f3, f4, f5, f6, f7, f8};
+    vr::Family f9;
+    f9.name = "I9_static_initialisation_phase";
+    f9.count = sizeof kEarlyVals / sizeof kEarlyVals[0];
+    f9.chunk = 1;
+    f9.group = "I9";
+    f9.rule = "U64toa, I64toa and Dump() called from the constructor of a global that is defined above every library include (i.e. during static initialisation, before any dynamic initialiser of the library's headers in this translation unit) on 13 values of every digit-count class: same text as snprintf";
+    fams = {f1, f2, f3, f4, f5, f6, f7, f8, f9};
     check = [&](const vr::Family& f, uint64_t idx, vr::Ctx& ctx) {
       switch (f.name[1]) {
+        case '9': {
+          uint64_t v = kEarlyVals[idx];
+          int64_t sv = (int64_t)(0 - v);
+          char eu[32], ei[32];
+          snprintf(eu, sizeof eu, "%" PRIu64, v);
+          snprintf(ei, sizeof ei, "%" PRId64, sv);
+          ctx.eval();
+          ctx.nontriv();
+          if (ctx.want_sample) ctx.sample(eu);
+          if (g_early.u64[idx] != eu) ctx.violation("u64toa", "u64toa_during_static_initialisation", eu, "U64toa(%s) called during static initialisation wrote '%s'", eu, vr::hex(g_early.u64[idx]).c_str());
+          if (g_early.i64[idx] != ei) ctx.violation("i64toa", "i64toa_during_static_initialisation", ei, "I64toa(%s) called during static initialisation wrote '%s'", ei, vr::hex(g_early.i64[idx]).c_str());
+          std::string want = std::string("[") + eu + "," + ei + ",\"s\\n\",1.5]";
+          if (g_early.dump[idx] != want) ctx.violation("int_dump", "dump_during_static_initialisation", want, "Dump() called during static initialisation gave '%s', expected '%s'", vr::hex(g_early.dump[idx]).c_str(), want.c_str());
+          break;
+        }
         case '8': {
           uint64_t v = V8[idx];
           if (ctx.want_sample) ctx.sample(std::to_string(v));
